@@ -290,6 +290,12 @@ def face_from_arrays(mesh, arrs):
     return pf.FaceVariable(mesh, *comps)
 
 
+def FaceVariable_from_views(mesh, arrs):
+    """FaceVariable holding exactly the given array objects (no copy, whatever their memory layout)."""
+    comps = list(arrs) + [np.array([])] * (3 - len(arrs))
+    return pf.FaceVariable(mesh, *comps)
+
+
 def all_faces(mesh):
     """List of (axis, index tuple) for every face of the mesh."""
     out = []
